@@ -236,6 +236,9 @@ let run (op : string) (a : string list) : string list =
   | "c07_decode", bs :: cls :: rest ->
       let bs = bytes_of_hex bs in
       [verdict (check_c07 bs (obs_decode_of cls rest)); s01 (decodes bs)]
+  | "c07_built", db :: bs :: cls :: rest ->
+      let bs = bytes_of_hex bs in
+      [verdict (check_c07_built (db_of_string db) bs (obs_decode_of cls rest)); "1"]
   | "c08_decode", bs :: cls :: rest ->
       let bs = bytes_of_hex bs in
       [verdict (check_c08 bs (obs_decode_of cls rest)); s01 (decodes_any bs)]
